@@ -303,6 +303,20 @@ func FamilySharp(tier string) []*Scenario {
 	// single block vs two block with failing second block
 	add("second-block-fails", PlanSpec{Post: Chk(A()), Def: Chk(A()), Blocks: []BlockSpec{{Seqs: okSeqs(2, 1), Conc: 2},
 		{Post: Chk(A()), Def: Chk(A()), Seqs: []SeqSpec{Seq(A(), A(Perm)), Seq(A())}, Conc: 1, Tol: 0}, {Seqs: okSeqs(1, 1)}}})
+	// the context given to Start ends right after Start returned: the execution must not notice
+	for _, v := range []struct {
+		name string
+		ps   PlanSpec
+	}{
+		{"all-groups-ok", all},
+		{"block-pre-fails", PlanSpec{Pre: Chk(A()), Def: Chk(A()), Blocks: []BlockSpec{{Pre: Chk(A(Perm)), Def: Chk(A()), Seqs: okSeqs(1, 2)}, {Seqs: okSeqs(1, 1)}}}},
+		{"plan-pre-ok-seq-fails", PlanSpec{Pre: Chk(A(), A()), Post: Chk(A()), Blocks: []BlockSpec{{Post: Chk(A()), Seqs: []SeqSpec{Seq(A(), A(Perm)), Seq(A())}, Conc: 2, Tol: 0}, {Seqs: okSeqs(1, 1)}}}},
+		{"retry", PlanSpec{Pre: Chk(AR(1, Trans, OK)), Blocks: []BlockSpec{{Seqs: []SeqSpec{Seq(AR(1, Trans, OK), A())}}}}},
+	} {
+		sc := add("startctx-"+v.name, v.ps)
+		sc.CancelStartCtx = true
+		sc.MaxTicks = 8
+	}
 	// post-check failing with deferred present at both levels
 	add("post-fails-def-present", PlanSpec{Post: Chk(A()), Def: Chk(A()), Blocks: []BlockSpec{{Post: Chk(A(), A(Perm)), Def: Chk(A()), Seqs: okSeqs(2, 1), Conc: 2}, {Seqs: okSeqs(1, 1)}}})
 	return out
